@@ -458,9 +458,16 @@ def task_glue(args):
         sa, sp, sl = (fix.get(s, s) for s in (sa, sp, sl))
         cell = (rp, rl, need, leaders, robot, author, sa, sp, sl, approve, unanimity, parts, apprs, crs)
         pao = [key for key, s in ((BA, sa), (BP, sp), (BL, sl)) if author_on(s)]
-        data = dict(repository_owner='owner', repository_slug='slug', repository_host='mock', robot=robot,
+        # half of the cells are configured the Bitbucket way: robot and project leaders listed as
+        # `name@account_id`, the host reporting account ids (the names of the cell); the gate must decide the same
+        by_id = rng.random() < 0.5
+        rname = ('n_%s' % robot) if by_id else robot        # comments address the robot by its user NAME
+        tally.count('glue-identities:' + ('name@account_id' if by_id else 'plain-username'))
+        data = dict(repository_owner='owner', repository_slug='slug', repository_host='mock',
+                    robot=('n_%s@%s' % (robot, robot)) if by_id else robot,
                     robot_email='robot@example.com', required_peer_approvals=rp, required_leader_approvals=rl,
-                    need_author_approval=need, project_leaders=list(leaders), admins=['admin'],
+                    need_author_approval=need,
+                    project_leaders=[('n_%s@%s' % (u, u)) if by_id else u for u in leaders], admins=['admin'],
                     pr_author_options={author: pao} if pao else {})
         sline = 'C04 settings %d %d %s' % (rp, rl, ulist(leaders))
         try:
@@ -484,11 +491,12 @@ def task_glue(args):
         comments = []
         for key, s in ((BA, sa), (BP, sp), (BL, sl)):
             if s in ('comment', 'comment+author'):
-                comments.append(SimpleNamespace(author='admin', text='@robot %s' % key))
+                comments.append(SimpleNamespace(author='admin', text='@%s %s' % (rname, key)))
         if approve:
-            comments.append(SimpleNamespace(author=author, text=rng.choice(('@robot approve', '/approve'))))
+            comments.append(SimpleNamespace(author=author, text=rng.choice(('@%s approve' % rname, '/approve'))))
         if unanimity:
-            comments.append(SimpleNamespace(author=rng.choice(('peer1', author, 'admin')), text='@robot unanimity'))
+            comments.append(SimpleNamespace(author=rng.choice(('peer1', author, 'admin')),
+                                            text='@%s unanimity' % rname))
         rng.shuffle(comments)
         job = PullRequestJob.__new__(PullRequestJob)
         job.settings = SettingsDict({}, settings)
@@ -644,10 +652,16 @@ def correspondence(ctx):
     res.extra['exhaustive_cells'] = len(outers) * (2 ** len(universe)) ** 2 * 2 ** len(cr_universe)
     res.extra['random_cells'] = n_random
     res.extra['glue_cells'] = n_glue
+    # end-to-end phase: the gate inside whole evaluations of the real system (composed model Model/Eval.lean)
+    from . import evalsys
+    evalsys.phase(ctx, res, PID)
     return res
 
 
 def replay(ctx, payload):
+    from . import evalsys
+    if evalsys.is_mine(payload):
+        return evalsys.replay(ctx, payload)
     res = Result()
     exe = ctx.model.exe if (ctx.model and ctx.model.available()) else None
     cell = cell_of(payload_input(payload))
